@@ -1,8 +1,11 @@
-(* C14 — sampled data and empirical distributions are valid and reproducible: property theorems only. *)
+(* C14 — sampled data and empirical distributions are valid and reproducible: property theorems only.
+   The models (Model/C14_DataGen.v, Model/C14_Streams.v) are the code AS REPAIRED by /verif/fixes/C14-*.diff — the model the
+   harness executes and compares with the implementation.  `..._before_fix_refuted` theorems are about the separately
+   labelled definitions of Model/C14_BeforeFix.v ("as coded before the fix"). *)
 From Coq Require Import ZArith QArith Qcanon List Lia.
 From QV.Core Require Import OF QcOF.
-From QV.Model Require Import Multinomial C14_DataGen C14_Streams.
-From QV.Proofs Require Import C14_DataGen C14_Streams.
+From QV.Model Require Import Multinomial C14_DataGen C14_Streams C14_BeforeFix.
+From QV.Proofs Require Import C14_DataGen C14_Streams C14_BeforeFix.
 Import ListNotations.
 
 (* ---------------------------------------------------------------- inversion sampling (_random_number_to_data) *)
@@ -25,21 +28,55 @@ Theorem C14_inversion_sampling_exact : forall (F : OF) (ps : list F) (r : F) (i 
 Proof. exact rn2data_exact. Qed.
 Print Assumptions C14_inversion_sampling_exact.
 
-(* r >= sum(p): the fallback returns the LAST index, whatever its probability *)
-Theorem C14_fallback_returns_last_index : forall (F : OF) (ps : list F) (r : F),
-  Forall (kle F (c0 F)) ps -> kle F (total F ps) r -> rn2data F ps r = (Z.of_nat (length ps) - 1)%Z.
+(* r >= sum(p) (reachable only through rounding): the fallback value is last_positive ... *)
+Theorem C14_fallback_returns_last_positive_index : forall (F : OF) (ps : list F) (r : F),
+  Forall (kle F (c0 F)) ps -> kle F (total F ps) r -> rn2data F ps r = last_positive F ps.
 Proof. exact rn2data_fallback. Qed.
-Print Assumptions C14_fallback_returns_last_index.
+Print Assumptions C14_fallback_returns_last_positive_index.
 
-(* "generated data contain only outcomes of non-zero probability" is FALSE of the faithful model (finding C14-1,
-   DESIGN section 4 #18): a vector accepted by validate_prob_dist and a random number in [0,1) that yield an outcome of
-   probability exactly 0.  Exact arithmetic over the executed field; the binary64 witness ([0.1]*10+[0.0], r = 1-2^-53) is
-   Proofs/C14_Float.v; both are replayed on the real code by the sub-check `fallback`. *)
-Theorem C14_only_positive_probability_outcomes_refuted :
+(* ... which is the LARGEST index of positive probability whenever the vector has a positive entry (len - 1 otherwise) *)
+Theorem C14_last_positive_is_largest_positive_index : forall (F : OF) (ps : list F),
+  (has_pos F ps -> exists n : nat, last_positive F ps = Z.of_nat n /\ (n < length ps)%nat /\ klt F (c0 F) (nth n ps (c0 F)) /\
+                                   forall j, (n < j < length ps)%nat -> ~ klt F (c0 F) (nth j ps (c0 F))) /\
+  (~ has_pos F ps -> last_positive F ps = (Z.of_nat (length ps) - 1)%Z).
+Proof. exact last_positive_spec. Qed.
+Print Assumptions C14_last_positive_is_largest_positive_index.
+
+(* "GENERATED DATA CONTAIN ONLY OUTCOMES OF NON-ZERO PROBABILITY WITHIN RANGE" — for exact AND rounded accumulation:
+   rn2data_r add is the single-loop transcription of _random_number_to_data whose `cumulative_sum += prob` is performed by
+   an ARBITRARY operation add with  p <= 0 -> add c p <= c  (exact addition; any monotone rounding of it, such as IEEE
+   round-to-nearest on finite values).  For EVERY r >= 0 — also r >= the accumulated sum — and EVERY vector with a positive
+   entry (entries may be negative, any sum, any length) the returned outcome is in range and has positive probability. *)
+Theorem C14_only_positive_probability_outcomes : forall (F : OF) (add : F -> F -> F),
+  (forall c p, kle F p (c0 F) -> kle F (add c p) c) ->
+  forall (ps : list F) (r : F), kle F (c0 F) r -> has_pos F ps ->
+  exists n : nat, rn2data_r F add ps r = Z.of_nat n /\ (n < length ps)%nat /\ klt F (c0 F) (nth n ps (c0 F)).
+Proof. exact rn2data_r_valid. Qed.
+Print Assumptions C14_only_positive_probability_outcomes.
+
+(* the single-loop transcription with exact addition IS the model rn2data (the function the harness executes, and the one
+   the Python text is proved equal to on every run, coq/gen/C14_Equiv.v) *)
+Theorem C14_single_loop_is_model : forall (F : OF) (ps : list F) (r : F), rn2data_r F (cadd F) ps r = rn2data F ps r.
+Proof. exact rn2data_r_exact_add. Qed.
+Print Assumptions C14_single_loop_is_model.
+
+(* generate_data_from_prob_dist: whenever validate_prob_dist accepts the vector (atol < 1) and the random numbers are >= 0,
+   there is one datum per random number and every datum is an in-range outcome of positive probability *)
+Theorem C14_generated_data_valid : forall (F : OF) (atol : F) (ps rs : list F) (l : list Z),
+  klt F atol (c1 F) -> Forall (kle F (c0 F)) rs -> gen_data F atol ps rs = MOk l ->
+  length l = length rs /\ Forall (posidx F ps) l.
+Proof. exact gen_data_valid. Qed.
+Print Assumptions C14_generated_data_valid.
+
+(* AS CODED BEFORE fix C14-rn2data-fallback-zero-probability the statement was FALSE (DESIGN section 4 #18): a vector
+   accepted by validate_prob_dist and a random number in [0,1) that yield an outcome of probability exactly 0.  Exact
+   arithmetic over the executed field; the binary64 witness ([0.1]*10+[0.0], r = 1-2^-53) is Proofs/C14_Float.v; both are
+   replayed on the real code by the sub-check `fallback` (violation on the unpatched tree, outcome 9 / 0 on the patched). *)
+Theorem C14_only_positive_probability_outcomes_before_fix_refuted :
   exists (atol : Qc) (ps : list Qc) (r : Qc) (i : nat),
-    gen_data Qc_OF atol ps [r] = MOk [Z.of_nat i] /\ nth i ps 1%Qc = 0%Qc /\ kle Qc_OF 0%Qc r /\ klt Qc_OF r 1%Qc.
-Proof. exists wit_eps, wit_ps, wit_r, 1%nat. exact zero_probability_outcome_reachable_qc. Qed.
-Print Assumptions C14_only_positive_probability_outcomes_refuted.
+    gen_data_before_fix Qc_OF atol ps [r] = MOk [Z.of_nat i] /\ nth i ps 1%Qc = 0%Qc /\ kle Qc_OF 0%Qc r /\ klt Qc_OF r 1%Qc.
+Proof. exists wit_eps, wit_ps, wit_r, 1%nat. exact zero_probability_outcome_reachable_before_fix. Qed.
+Print Assumptions C14_only_positive_probability_outcomes_before_fix_refuted.
 
 (* ---------------------------------------------------------------- calc_empi_dist_sequence *)
 
@@ -50,28 +87,39 @@ Theorem C14_empi_seq_is_prefix_counts : forall (F : OF) (m : Z) (data ns : list 
 Proof. exact empi_seq_spec. Qed.
 Print Assumptions C14_empi_seq_is_prefix_counts.
 
-(* errors exactly for malformed requests: with a positive first sample size, success implies well-formedness
-   (together with the previous theorem: success <-> well-formed, and the output is the specified one) *)
+(* errors exactly for malformed requests: success <-> well-formed (and then the output is the specified one) *)
 Theorem C14_empi_seq_success_iff_wellformed : forall (F : OF) (m : Z) (data ns : list Z),
-  (0 < hd 1%Z ns)%Z ->
-  ((exists o, empi_seq F m data ns = EOk o) <-> empi_pre m data ns).
-Proof. intros F m data ns H. split.
-  - intros [o Ho]. exact (empi_seq_ok_inv F m data ns o H Ho).
+  (exists o, empi_seq F m data ns = EOk o) <-> empi_pre m data ns.
+Proof. intros F m data ns. split.
+  - intros [o Ho]. exact (empi_seq_ok_inv F m data ns o Ho).
   - intros Hp. eexists. exact (empi_seq_spec F m data ns Hp). Qed.
 Print Assumptions C14_empi_seq_success_iff_wellformed.
+
+(* a successful call returns exactly one member per requested sample size, in the requested order *)
+Theorem C14_empi_seq_one_member_per_request : forall (F : OF) (m : Z) (data ns : list Z) (out : list (Z * list F)),
+  empi_seq F m data ns = EOk out -> map fst out = ns.
+Proof. exact empi_seq_one_member_per_request. Qed.
+Print Assumptions C14_empi_seq_one_member_per_request.
 
 Theorem C14_empi_seq_negative_measurement_num : forall (F : OF) (m : Z) (data ns : list Z),
   (m < 0)%Z -> empi_seq F m data ns = EErr 1.
 Proof. exact empi_seq_negative_measurement_num. Qed.
 Print Assumptions C14_empi_seq_negative_measurement_num.
 
-(* what the code does with a first sample size <= 0: it is never matched, ALL data are validated and NO
-   distribution is returned, not even for later (valid) sample sizes — see finding C14-2 *)
-Theorem C14_empi_seq_nonpositive_first_sample_size : forall (F : OF) (m : Z) (data : list Z) (n0 : Z) (rest : list Z),
-  (0 <= m)%Z -> (n0 <= 0)%Z ->
-  empi_seq F m data (n0 :: rest) = if forallb (in_rangeb m) data then EOk [] else EErr 3.
+(* a first sample size <= 0 is rejected (num_sums must increase from 0) *)
+Theorem C14_empi_seq_nonpositive_first_sample_size_rejected : forall (F : OF) (m : Z) (data : list Z) (n0 : Z) (rest : list Z),
+  (0 <= m)%Z -> (n0 <= 0)%Z -> empi_seq F m data (n0 :: rest) = EErr 4.
 Proof. exact empi_seq_nonpositive_first. Qed.
-Print Assumptions C14_empi_seq_nonpositive_first_sample_size.
+Print Assumptions C14_empi_seq_nonpositive_first_sample_size_rejected.
+
+(* AS CODED BEFORE fix C14-empi-seq-nonpositive-first-num-sum: the request [0; 2] on data [0; 1] succeeded with NO member at
+   all - the valid request 2 was silently dropped (the repaired model returns error 4) *)
+Theorem C14_empi_seq_one_member_per_request_before_fix_refuted :
+  exists (m : Z) (data ns : list Z) (out : list (Z * list Qc)),
+    empi_seq_before_fix Qc_OF m data ns = EOk out /\ map fst out <> ns /\ empi_seq Qc_OF m data ns = EErr 4.
+Proof. exists 2%Z, [0; 1]%Z, [0; 2]%Z, []. destruct nonpositive_first_num_sum_dropped_before_fix as [A B].
+  split; [exact A|]. split; [discriminate|exact B]. Qed.
+Print Assumptions C14_empi_seq_one_member_per_request_before_fix_refuted.
 
 (* every specified member is a probability vector: right length, entries >= 0, sum 1 *)
 Theorem C14_empi_dist_valid : forall (F : OF) (m : Z) (data : list Z) (n : Z),
@@ -108,10 +156,10 @@ Context {G V : Type} (draw : G -> req -> V * G) (mkgen gseed : Z -> G).
 Theorem C14_to_stream_cases : forall (w : @world G),
   to_stream mkgen SNone w = (RefGlobal, w) /\
   (forall z, fst (to_stream mkgen (SInt z) w) = RefGen (length (gens w)) /\
-             sel mkgen gseed (fst (to_stream mkgen (SInt z) w)) (snd (to_stream mkgen (SInt z) w)) = mkgen z /\
+             sel mkgen (fst (to_stream mkgen (SInt z) w)) (snd (to_stream mkgen (SInt z) w)) = mkgen z /\
              glob (snd (to_stream mkgen (SInt z) w)) = glob w) /\
   (forall r, to_stream mkgen (as_arg r) w = (r, w)).
-Proof. exact (to_stream_cases mkgen gseed). Qed.
+Proof. exact (to_stream_cases mkgen). Qed.
 
 (* REFINEMENT: every data-generation entry point of data_generator, Experiment, MultinomialDistribution and the tomography
    classes — modelled with its whole call chain, nested to_stream calls and loops — equals its normal form: (copy the
@@ -182,17 +230,22 @@ Theorem C14_global_seed_then_none_reproducible : forall (c : call) (z : Z) (w : 
   fst (run_call draw mkgen gseed c SNone (set_glob (gseed z) w)) = fst (call_body draw c (gseed z)).
 Proof. exact (global_seed_then_none draw mkgen gseed). Qed.
 
-(* reset_seed(z) with z <> 0 re-seeds the global state ... *)
-Theorem C14_reset_seed_nonzero_honoured : forall (o : nat) (z : Z) (w : @world G), z <> 0%Z ->
+(* reset_seed(z) re-seeds the global state for EVERY integer z, 0 included ... *)
+Theorem C14_reset_seed_honoured : forall (o : nat) (z : Z) (w : @world G),
   glob (snd (tomo_reset_seed gseed o (Some z) w)) = gseed z /\ objs (snd (tomo_reset_seed gseed o (Some z) w)) o = Some z.
-Proof. exact (reset_seed_nonzero_honoured gseed). Qed.
+Proof. exact (reset_seed_honoured gseed). Qed.
+(* ... so a None-seeded generation right after reset_seed(z) is a function of z and the arguments only, whatever the world
+   (global state, generators, objects, earlier calls) was before *)
+Theorem C14_reset_seed_then_output_function_of_seed : forall (o : nat) (z : Z) (c : call) (w : @world G),
+  single_stream c SNone -> call_pre c = None ->
+  fst (run_call draw mkgen gseed c SNone (snd (tomo_reset_seed gseed o (Some z) w))) = fst (call_body draw c (gseed z)).
+Proof. exact (reset_seed_then_none draw mkgen gseed). Qed.
 
-(* FINDING C14-4 (a universally quantified statement of the defect): a numpy integer passed as seed is handed on as
-   `random_state`; every multinomial request then starts from the same freshly seeded state: the k members of a sequence
-   with equal sample size are IDENTICAL copies, not successive draws of one stream *)
-Theorem C14_numpy_integer_seed_members_identical_refuted : forall (pd : nat) (n : Z) (k : nat) (z : Z) (w : @world G),
-  dg_empi_seq draw mkgen gseed pd (repeat n k) (SNpInt z) w = (repeat (n, fst (draw (gseed z) (RMulti n pd))) k, w).
-Proof. exact (npint_members_identical draw mkgen gseed). Qed.
+(* a numpy integer seed (np.int64(5)) IS an integer seed: same value, same final world, for every entry point — hence all
+   int-seed theorems above hold for numpy integers too *)
+Theorem C14_numpy_integer_seed_is_int_seed : forall (c : call) (z : Z) (w : @world G),
+  run_call draw mkgen gseed c (SNpInt z) w = run_call draw mkgen gseed c (SInt z) w.
+Proof. exact (npint_seed_is_int_seed draw mkgen gseed). Qed.
 
 (* the data path: stream.random(n+m) is stream.random(n) followed by stream.random(m) — consecutive segments *)
 Theorem C14_uniform_draws_consecutive_segments : forall {X : Type} (next : G -> X * G) (n m : nat) (g : G),
@@ -209,18 +262,20 @@ Print Assumptions C14_shared_generator_consecutive_segments.
 Print Assumptions C14_empi_seq_consecutive_segments.
 Print Assumptions C14_none_uses_global_state.
 Print Assumptions C14_global_seed_then_none_reproducible.
-Print Assumptions C14_reset_seed_nonzero_honoured.
-Print Assumptions C14_numpy_integer_seed_members_identical_refuted.
+Print Assumptions C14_reset_seed_honoured.
+Print Assumptions C14_reset_seed_then_output_function_of_seed.
+Print Assumptions C14_numpy_integer_seed_is_int_seed.
 Print Assumptions C14_uniform_draws_consecutive_segments.
 
-(* FINDING C14-3: "with an explicit seed the output is a function of the seed" is FALSE for reset_seed(0) (`if seed:`):
-   two sessions that differ only in an EARLIER np.random.seed value, each followed by constructing a tomography object,
-   reset_seed(0) and a None-seeded generate_empi_dists, return different draws (free generator: outputs name their draws) *)
-Theorem C14_reset_seed_zero_ignored_refuted :
+(* AS CODED BEFORE fix C14-reset-seed-zero (`if seed:`), "with an explicit seed the output is a function of the seed" was
+   FALSE for reset_seed(0): two sessions that differ only in an EARLIER np.random.seed value, each followed by constructing a
+   tomography object, reset_seed(0) and a None-seeded generate_empi_dists, returned different draws (free generator: outputs
+   name their draws) *)
+Theorem C14_reset_seed_zero_before_fix_refuted :
   exists (z1 z2 : Z) (c : call),
-    fst (run_call fdraw fmkgen fgseed c SNone (after_reset0 z1)) <> fst (run_call fdraw fmkgen fgseed c SNone (after_reset0 z2)).
-Proof. exists 1%Z, 2%Z, (CTomoEmpiDists 2 5%Z). exact reset_seed_zero_ignored_witness. Qed.
-Print Assumptions C14_reset_seed_zero_ignored_refuted.
+    fst (run_call fdraw fmkgen fgseed c SNone (after_reset0_before_fix z1)) <> fst (run_call fdraw fmkgen fgseed c SNone (after_reset0_before_fix z2)).
+Proof. exists 1%Z, 2%Z, (CTomoEmpiDists 2 5%Z). exact reset_seed_zero_ignored_before_fix. Qed.
+Print Assumptions C14_reset_seed_zero_before_fix_refuted.
 
 (* ---------------------------------------------------------------- non-vacuity *)
 Local Open Scope Qc_scope.
@@ -231,6 +286,14 @@ Example C14_example_inversion :
   rn2data Qc_OF [q 1 2; q 0 1; q 1 4; q 1 4] (q 1 2) = 2%Z /\
   rn2data Qc_OF [q 1 2; q 0 1; q 1 4; q 1 4] (q 1 1) = 3%Z.
 Proof. vm_compute. repeat split. Qed.
+(* the fallback skips trailing zeros: p = (1/2, 1/2, 0, 0), r = 1 -> index 1 (the last positive entry), and the hypotheses of
+   C14_only_positive_probability_outcomes / C14_generated_data_valid are satisfiable *)
+Example C14_example_fallback :
+  rn2data Qc_OF [q 1 2; q 1 2; q 0 1; q 0 1] (q 1 1) = 1%Z /\ rn2data_r Qc_OF (cadd Qc_OF) [q 1 2; q 1 2; q 0 1; q 0 1] (q 1 1) = 1%Z /\
+  gen_data Qc_OF (q 1 100) [q 1 2; q 1 2; q 0 1; q 0 1] [q 1 1; q 0 1; q 3 4] = MOk [1; 0; 1]%Z.
+Proof. vm_compute. repeat split. Qed.
+Example C14_example_has_pos : has_pos Qc_OF [q 1 2; q 1 2; q 0 1; q 0 1].
+Proof. exists 1%nat. split; [cbn; lia|]. split; [apply (proj1 (k_leb Qc_OF _ _)); vm_compute; reflexivity|]. intros H. discriminate H. Qed.
 (* the docstring example of calc_empi_dist_sequence is well-formed and gives (5,[2/5,3/5]) ... *)
 Example C14_example_empi_pre :
   empi_pre 2 [1;1;1;0;0;1;1;1;0;1;1;1;1;1;0;0;1;1;0;1]%Z [5;10;20]%Z.
